@@ -18,18 +18,23 @@ import (
 // {Sentence(N0), bare N0} x every input, through parsley.Parse and
 // parsley.Evaluate with an interpreter bound to every non-terminal.
 
+// fullAll adds the two remaining result-transforming combinators (SuppressError, Single) to the full alphabet.
+var fullAll = gram.Full.With("full+suppress+single", gram.SupErr, gram.Single)
+
 func c04Specs(tier string) []spaceSpec {
 	if tier == "thorough" {
 		return []spaceSpec{
 			{sp: &gram.Space{Name: "full-1nt", Alpha: gram.Full, NNT: 1, Min: 1, Max: 5}, maxLen: 4, alpha: ab},
 			{sp: &gram.Space{Name: "core-1nt", Alpha: gram.Core, NNT: 1, Min: 6, Max: 6}, maxLen: 4, alpha: ab},
 			{sp: &gram.Space{Name: "full-2nt", Alpha: gram.Full, NNT: 2, Min: 2, Max: 5}, maxLen: 3, alpha: ab},
+			{sp: &gram.Space{Name: "all-combinators-1nt", Alpha: fullAll, NNT: 1, Min: 2, Max: 5}, maxLen: 3, alpha: ab},
 		}
 	}
 	return []spaceSpec{
 		{sp: &gram.Space{Name: "full-1nt", Alpha: gram.Full, NNT: 1, Min: 1, Max: 4}, maxLen: 4, alpha: ab},
 		{sp: &gram.Space{Name: "core-1nt", Alpha: gram.Core, NNT: 1, Min: 5, Max: 5}, maxLen: 4, alpha: ab},
 		{sp: &gram.Space{Name: "full-2nt", Alpha: gram.Full, NNT: 2, Min: 2, Max: 4}, maxLen: 3, alpha: ab},
+		{sp: &gram.Space{Name: "all-combinators-1nt", Alpha: fullAll, NNT: 1, Min: 2, Max: 4}, maxLen: 3, alpha: ab},
 	}
 }
 
@@ -72,6 +77,14 @@ func c04Grammar(res *explore.Result, g *gram.Grammar, inputs [][]byte, verbose b
 	}
 	res.Add("grammars_explored", 1)
 	admitted := an.Admitted()
+	for _, e := range g.Nodes() {
+		if e.K == gram.Single {
+			// combinator.Single drops its operand's result whenever the operand also returned an error (Optional
+			// does that), a behaviour its own unit test pins; the reference does not model returned errors, so
+			// grammars containing Single are explored for the unconditional clauses only
+			admitted = false
+		}
+	}
 	if admitted {
 		res.Add("grammars_admitted_for_sentence_oracle", 1)
 	}
